@@ -126,13 +126,31 @@ def wait_calls(fn, cv_field=None):
             cv = match.this_field(kids(x)[0])
             if cv_field is not None and cv != cv_field:
                 continue
-            lam = [a for a in kids(x)[1:] for y in walk(a) if y["k"] == "LambdaExpr"]
             lamn = None
             for a in kids(x)[1:]:
                 for y in walk(a):
                     if y["k"] == "LambdaExpr":
                         lamn = y
-            out.append(dict(node=x, cv=cv, pred=lamn))
+                # a named predicate: `auto pred = [..]{..}; cv.wait(lock, pred);`
+                d = ref_of(a)
+                if lamn is None and d is not None:
+                    for v in fn.nodes():
+                        if v["k"] == "VarDecl" and v.get("did") == d and kids(v):
+                            for y in walk(kids(v)[0]):
+                                if y["k"] == "LambdaExpr":
+                                    lamn = y
+            # the re-check loop form: while (!pred) cv.wait(lock);
+            loop_cond = None
+            if lamn is None:
+                par = fn.parent(x)
+                while par is not None and par["k"] in ("CompoundStmt", "ExprWithCleanups"):
+                    par = fn.parent(par)
+                if par is not None and par["k"] == "WhileStmt":
+                    body = kids(par)[1]
+                    stmts = kids(body) if body is not None and body["k"] == "CompoundStmt" else [body]
+                    if len([q for q in stmts if q is not None]) == 1:
+                        loop_cond = kids(par)[0]
+            out.append(dict(node=x, cv=cv, pred=lamn, loop_cond=loop_cond))
     return out
 
 
